@@ -239,7 +239,7 @@ claim('C20',
                   'initialises the resource manager and every registered asset exactly once, in order, on the first call only; '
                   'Asset.initialize raises on a second call; find_assets returns exactly the matching registered assets in '
                   'registration order (ghost position maps); late creation of PartHandler, PartProcessor, Buffer, Sink, PartBatcher, '
-                  'DecisionGate, Maintainer, ActionScheduler verified (three defects repaired); Source: known finding.')
+                  'DecisionGate, Maintainer, ActionScheduler, Source verified (four defects repaired by fix: commits).')
 
 claim('C17',
       assumptions=[
@@ -260,3 +260,25 @@ claim('C17',
                   'fills the output iff n is reached and schedules exactly one hand-over then; _pass_part_downstream refills only '
                   'from the held input; give_part accepts only when nothing is left to unpack and nothing waits to leave; Buffer '
                   'and Sink count every contained part; Batch routing-history updates reach every part once, in order.')
+
+claim('C19',
+      assumptions=[
+          A2, A4,
+          'the k-th periodic measurement is exactly k-fold repeated addition of the interval: proved per step (every measurement '
+          'schedules exactly one next SENSOR event at now + interval, initialize schedules the first at start + interval); the '
+          'induction over k is by hand; float rounding of the repeated addition is outside A2 (times are reals)',
+          'copy.copy of a user value is the uninterpreted function copy_of(v); the measurement function (Probe._get_data callback, '
+          'AttributeProbe._get_data = getattr) is an external call whose result identity is recorded in the ghost trace',
+          'callbacks do not edit the stored series, do not register further callbacks during a measurement and do not touch the '
+          'sensor\'s private fields (rely); probes are distinct objects and no probe equals the key "time"',
+          'Cms receives each measurement exactly once: proved as "on_sense registered exactly once per distinct sensor" + the '
+          'Sensor.sense clause that every registered callback is called exactly once per measurement (composition by hand)',
+          'OutputPartSensor is verified from the processor hook inwards; that a PartProcessor calls its finish-processing hooks '
+          'once per finished part is C06/C13 (PartProcessor._finish_cycle)',
+      ],
+      explanation='Sensor._collect_data: one probe() per probe in probe order, the value stored at the back of that probe\'s series, '
+                  'earlier values kept in order, oldest dropped exactly beyond capacity, all series aligned and within capacity '
+                  '(class invariant); Sensor.sense: every on-sense callback once, in registration order, with (sensor, now, values); '
+                  'PeriodicSensor: time series aligned and trimmed with the probe series (defect repaired), exactly one next event at '
+                  'now + interval; OutputPartSensor: counter automaton (first part measured, then every (n+1)-th); Probe.probe returns '
+                  'a copy of what was measured on the target now (also for overriding subclasses); Cms.add_sensor registers once.')
